@@ -24,6 +24,8 @@ MenuDef == SetToSeq( { Put(T1, it) : it \in Items } \cup { Get(T1, k) : k \in Ke
                      \cup { Upd(T1, k, SetU("v", Val(":n")), One(":n", Num(1))) : k \in Keys }
                      \* create-if-absent: the item an upsert creates carries its key attributes, also when a condition guards it
                      \cup { UpdC("c1", T1, K(i, i), SetU("v", Val(":n")), Cond(Fn("attribute_not_exists", <<Path("h")>>)), <<>>, One(":n", Num(1)), FALSE) : i \in 1..3 }
+                     \* ... and one that would make the key of K(1,1) equal to the key of ANOTHER stored item, K(4,1): that item must survive
+                     \cup { Upd(T1, K(1, 1), SetU("h", Val(":y")), One(":y", V(HB[4]))) }
                      \cup { Upd(T1, K(1, 1), SetU("h", Val(":x")), One(":x", V(<<122>>))), Upd(T1, K(1, 1), RemU("r"), <<>>),
                             Upd(T1, K(1, 1), SetU("r", Val(":x")), One(":x", V(<<122>>))) }
                      \cup { Put(T1, bk @@ [who |-> Num(0)]) : bk \in BadKeys } \cup { Get(T1, bk) : bk \in BadKeys }
